@@ -43,7 +43,7 @@ def solve(puzzle, h, w, problem):
     z3.set_param("timeout", 120000)
     from cspuz.puzzle import (slitherlink, masyu, yajilin, simpleloop, nurikabe, norinori, akari, star_battle, yinyang,
                               creek, heyawake, lits, nurimisaki, putteria, aquarium, gokigen, sudoku, building, doppelblock,
-                              fillomino, view, geradeweg, castle_wall, compass)
+                              fillomino, view, geradeweg, castle_wall, compass, fivecells, shakashaka)
 
     def rooms(rgs):
         k = max(rgs) + 1
@@ -133,6 +133,12 @@ def solve(puzzle, h, w, problem):
         if puzzle == "compass":
             pr = [(c[0] // w, c[0] % w, c[1], c[2], c[3], c[4]) for c in problem]     # (y, x, up, left, down, right)
             sat, a = compass.solve_compass(h, w, pr)
+            return sat, int_facts(a) if sat else []
+        if puzzle == "fivecells":
+            sat, borders = fivecells.solve_fivecells(h, w, grid(problem, h, w))
+            return sat, [tri(v.sol) for v in borders] if sat else []
+        if puzzle == "shakashaka":
+            sat, a = shakashaka.solve_shakashaka(h, w, grid(problem, h, w, lambda v: None if v == -5 else v))
             return sat, int_facts(a) if sat else []
     raise ValueError("no adapter for " + puzzle)
 
